@@ -1309,7 +1309,17 @@ impl FseDecoder {
             
             let block_data = &data[pos..pos + block_size];
             let decompressed = self.decompress_single(block_data)?;
-            output.extend_from_slice(&decompressed);
+            if output.is_empty() {
+                // first block: take the buffer instead of copying it
+                output = decompressed;
+            } else {
+                // the block sizes come from (possibly corrupted) block headers: an allocation
+                // failure while joining the blocks is an error, not an abort
+                output
+                    .try_reserve(decompressed.len())
+                    .map_err(|_| ZiporaError::out_of_memory(decompressed.len()))?;
+                output.extend_from_slice(&decompressed);
+            }
             pos += block_size;
         }
         
